@@ -103,3 +103,62 @@ func WithCRC(b []byte) []byte {
 	c := CRC32MPEG2(b)
 	return append(append([]byte(nil), b...), byte(c>>24), byte(c>>16), byte(c>>8), byte(c))
 }
+
+// ForgeCRC overwrites the four bytes msg[off:off+4] so that CRC32MPEG2(msg) == target. The CRC is
+// affine over GF(2) in those 32 bits and four consecutive message bytes act as a bijection on the
+// register, so the 32x32 system always has exactly one solution (Gaussian elimination).
+func ForgeCRC(msg []byte, off int, target uint32) bool {
+	if off < 0 || off+4 > len(msg) {
+		return false
+	}
+	copy(msg[off:off+4], []byte{0, 0, 0, 0})
+	want := CRC32MPEG2(msg) ^ target
+	var col [32]uint32 // col[i]: effect of free bit i on the CRC
+	for i := 0; i < 32; i++ {
+		msg[off+i/8] = 0x80 >> uint(i%8)
+		col[i] = CRC32MPEG2(msg) ^ want ^ target
+		msg[off+i/8] = 0
+	}
+	// solve sum_i x_i*col[i] == want; rows are CRC bits, augmented with the right-hand side
+	var rows [32]uint64
+	for r := 0; r < 32; r++ {
+		var v uint64
+		for i := 0; i < 32; i++ {
+			if col[i]>>uint(r)&1 != 0 {
+				v |= 1 << uint(i)
+			}
+		}
+		if want>>uint(r)&1 != 0 {
+			v |= 1 << 32
+		}
+		rows[r] = v
+	}
+	var pivotRow [32]int
+	used := 0
+	for c := 0; c < 32; c++ {
+		p := -1
+		for r := used; r < 32; r++ {
+			if rows[r]>>uint(c)&1 != 0 {
+				p = r
+				break
+			}
+		}
+		if p < 0 {
+			return false
+		}
+		rows[used], rows[p] = rows[p], rows[used]
+		for r := 0; r < 32; r++ {
+			if r != used && rows[r]>>uint(c)&1 != 0 {
+				rows[r] ^= rows[used]
+			}
+		}
+		pivotRow[c] = used
+		used++
+	}
+	for c := 0; c < 32; c++ {
+		if rows[pivotRow[c]]>>32&1 != 0 {
+			msg[off+c/8] |= 0x80 >> uint(c%8)
+		}
+	}
+	return CRC32MPEG2(msg) == target
+}
